@@ -8,34 +8,31 @@ from .engine import AnalysisError
 SEED_FNS = ("seed_from_u64", "from_seed", "with_seed", "murmur3_32", "from_rng", "from_os_rng", "try_from_rng",
             "from_entropy", "seed_from_u32")
 
-_trees = {}
-_slicers = {}
+# per-function caches live inside the function's own fact dict (a cache keyed by id() would be reused by another
+# fact file once the first one is garbage collected — the thorough tier analyses many trees in one process)
 
 
 def tree_of(fn):
-    t = _trees.get(id(fn))
+    t = fn.get("_tree")
     if t is None:
         t = hirq.Tree(fn["hir"])
-        _trees[id(fn)] = t
+        fn["_tree"] = t
     return t
 
 
 def slicer_of(fn):
-    s = _slicers.get(id(fn))
+    s = fn.get("_slicer")
     if s is None:
         s = slicer.Slicer(fn)
-        _slicers[id(fn)] = s
+        fn["_slicer"] = s
     return s
 
 
-_resolvers = {}
-
-
 def resolver_of(fn):
-    r = _resolvers.get(id(fn))
+    r = fn.get("_resolver")
     if r is None:
         r = nf.Resolver(fn)
-        _resolvers[id(fn)] = r
+        fn["_resolver"] = r
     return r
 
 
